@@ -262,22 +262,30 @@ def c40(res, tier, seed):
     b = build_harness(("gen",))
     q = tier == "quick"
     tour = os.path.join(scratch(), "c40.tour")
-    bases = "{0, 3, 13, 27, 28, 30}" if q else "{0, 2, 3, 4, 7, 9, 10, 13, 14, 20, 23, 27, 28, 29, 30, 31, 39, 41, 48, 58, 60, 62}"
-    r = tlc("MC_GenHistory", cfg({"Modes": _S(["in", "fresh"]), "Perms": "{0, 1, 2}", "Digs": "{1, 2}", "MaxPlan": 2 if q else 3,
-                                  "Bases": bases, "Par0": seed % 32}, invariants=["Laws"], emit="Emit"),
-            emit_to=tour, workers=1, timeout=1500)
-    res.add_tlc(r, "abstract possibly-nondeterministic generator: every plan of runs (mode x permutation) with every combination of "
-                   "observed digests; memo-table = relational definition of determinism, prefix closure, sensitivity")
+    # fresh processes are the expensive part (0.1 s each on an idle machine, 0.3 s when it is shared)
+    if q:
+        configs = [dict(Modes=["in", "fresh"], Perms="{0, 1}", MaxPlan=2, Bases="{0, 13, 28}")]
+    else:
+        bases = "{0, 2, 3, 4, 7, 9, 10, 13, 14, 20, 23, 27, 28, 29, 30, 31, 39, 41, 48, 58, 60, 62}"
+        configs = [dict(Modes=["in", "fresh"], Perms="{0, 1, 2}", MaxPlan=2, Bases=bases),
+                   dict(Modes=["in"], Perms="{0, 1, 2}", MaxPlan=4, Bases=bases)]
+    for c in configs:
+        r = tlc("MC_GenHistory", cfg({"Modes": _S(c["Modes"]), "Perms": c["Perms"], "Digs": "{1, 2}", "MaxPlan": c["MaxPlan"],
+                                      "Bases": c["Bases"], "Par0": seed % 32}, invariants=["Laws"], emit="Emit"),
+                emit_to=tour, workers=1, timeout=1500)
+        res.add_tlc(r, "abstract possibly-nondeterministic generator: every plan of <= %d runs over modes %s x permutations %s with every "
+                       "combination of observed digests; memo-table = relational definition of determinism, prefix closure, sensitivity"
+                    % (c["MaxPlan"], "/".join(c["Modes"]), c["Perms"]))
     res.exhaustive = True
     env = {"GOMAXPROCS": "2"}
     vlib.replay_tour(res, b, "gen", tour, key=_c40_key, timeout=3000, env=env)
-    n = 40 if q else 1200
+    n = 25 if q else 600
     vlib.drive_and_validate(res, b, "gen", "Trace_Gen", seed, n, key=_c40_key, shards=1 if q else None, timeout=3000, env=env)
-    res.rule = ("tour: every plan of <= %d generator runs over {in-process, fresh process} x {file_to_generate as listed, reversed, rotated} "
-                "on %d linked file sets with rotating parameter combinations (API level x import-path mode x annotate_code), "
-                "response and per-file digests compared; driver: random plans of 6-12 runs (25%% in fresh processes) over all 69 linked "
+    res.rule = ("tour: every plan of <= 2 generator runs over {in-process, fresh process} x permutations of file_to_generate (as listed, "
+                "reversed%s) on %d linked file sets with rotating parameter combinations (API level x import-path mode x annotate_code), "
+                "response and per-file digests compared; driver: random plans of 6-12 runs (1/6 in fresh processes) over all 69 linked "
                 "file sets and random schemas x 32 parameter combinations, histories validated by Trace_Gen; distinct = (file set, "
-                "parameters, plan shape, error classes)" % (2 if q else 3, 6 if q else 22))
+                "parameters, plan shape, error classes)" % ("" if q else ", rotated; plus every in-process plan of <= 4 runs", 3 if q else 22))
     res.assumptions += ["nondeterminism can only be OBSERVED (Go randomises map iteration per range statement and per process); "
                         "the specification cannot force an iteration order, hence level exploration",
                         "requests the plugin refuses before producing a response (no go_package, MessageSet without protolegacy) are "
